@@ -74,6 +74,21 @@ func journalExtra(seed uint64, mode jmode, pad bool, storePct int) func(a *h.Asm
 		r := h.NewRNG(h.Mix(seed, uint64(n.ID), uint64(phase), 0x6a))
 		k := 1 + r.Intn(3)
 		for i := 0; i < k; i++ {
+			if r.Chance(25) {
+				// a call attempt that opens no code frame between two journal entries: code-less / non-existent /
+				// precompile targets, and attempts refused up front (value or endowment beyond the balance)
+				tgt := []common.Address{h.Nobody, h.EOARich, common.BytesToAddress([]byte{4}), h.EmptyAcct, common.BytesToAddress([]byte{0xd0, byte(n.ID), byte(i)})}[r.Intn(5)]
+				switch v := r.Intn(4); {
+				case v == 0 && !n.Static:
+					a.PushU(0).PushU(0).PushU(0).PushU(0).Push(new(uint256.Int).Lsh(h.U(1), 120)).PushAddr(tgt).PushU(3000).Op(h.CALL, h.POP)
+				case v == 1 && !n.Static:
+					a.PushU(0).PushU(0).Push(new(uint256.Int).Lsh(h.U(1), 120)).Op(h.CREATE, h.POP)
+				case v == 2:
+					a.PushU(0).PushU(0).PushU(0).PushU(0).PushU(0).PushAddr(tgt).PushU(3000).Op(h.CALLCODE, h.POP)
+				default:
+					a.PushU(0).PushU(0).PushU(0).PushU(0).PushU(0).PushAddr(tgt).PushU(3000).Op(h.CALL, h.POP)
+				}
+			}
 			switch r.Intn(6) {
 			case 0, 1: // x: register (value state var) + store + journal (+ maybe journal again)
 				a.MstoreName(memJ, []byte("x"))
